@@ -15,17 +15,20 @@ Rec(x) == hist' = Append(hist, x)
 L == Lab("L", <<>>, <<>>, <<>>)
 
 \* one or two CIDs in ascending order
+Asc(a, b) == IF a = b THEN <<a>> ELSE IF a < b THEN <<a, b>> ELSE <<b, a>>
 \* (the dummy state-dependent argument keeps TLC from evaluating the random choice once and for all)
-Pick(z) == LET a == RandomElement({c \in Cids : z >= 0}) b == RandomElement({c \in Cids : z >= 0})
-        IN IF a = b THEN <<a>> ELSE IF a < b THEN <<a, b>> ELSE <<b, a>>
+Rnd(z) == RandomElement({c \in Cids : z >= 0})
 Fl(s) == IF MeetsCancel(s) THEN "ReAdd" \in AsBuilt ELSE FALSE
 
 GProducer ==
     /\ sigs < NProd /\ ops' = ops + 1
-    /\ LET ks == Pick(Len(hist))
-           k2 == Pick(Len(hist) + 1)
-           r == RandomElement({x \in 1..7 : Len(hist) >= 0})
-       IN \/ r = 1 /\ Producer(BcstSection(ks, Fl(ks))) /\ Rec(Lab("bcst", <<>>, <<>>, ks))
+    \* (drawn values are bound by \E over singleton sets: a LET definition would be re-drawn at every use)
+    /\ \E a \in {Rnd(Len(hist))}, b \in {Rnd(Len(hist) + 1)}, c \in {Rnd(Len(hist) + 2)}, d \in {Rnd(Len(hist) + 3)},
+          r \in {RandomElement({x \in 1..7 : Len(hist) >= 0})} :
+       LET ks == Asc(a, b)
+           k2 == Asc(c, d)
+       IN
+          \/ r = 1 /\ Producer(BcstSection(ks, Fl(ks))) /\ Rec(Lab("bcst", <<>>, <<>>, ks))
           \/ r = 2 /\ Producer(WantsSection(ks, <<>>, Fl(ks))) /\ Rec(Lab("wants", ks, <<>>, <<>>))
           \/ r = 3 /\ Producer(WantsSection(<<>>, ks, Fl(ks))) /\ Rec(Lab("wants", <<>>, ks, <<>>))
           \/ r = 4 /\ Producer(WantsSection(ks, k2, Fl(ks \o k2))) /\ Rec(Lab("wants", ks, k2, <<>>))
